@@ -9,8 +9,10 @@ import (
 // Result of one controlled execution, handed to the check callback.
 type Result struct {
 	Outcome
-	Arity []int
-	Costs []int
+	Arity   []int
+	Costs   []int
+	AltKeys map[int][][2]uint64
+	Used    []int // preemptions used before each choice point
 }
 
 // Stats of an exploration.
@@ -23,6 +25,8 @@ type Stats struct {
 	MaxPreempts   int
 	MaxGoroutines int
 	Deadlocks     int
+	Skipped       int  // alternatives skipped without executing (successor state already covered)
+	NotOwned      int  // level-2 subtrees owned by another shard
 	Complete      bool // the whole bounded space was explored
 	HarnessError  string
 	ChoicePoints  int
@@ -68,7 +72,11 @@ func run(opts Options, prefix []int, cache map[[2]uint64]int8, body func()) (*Ex
 		timer.Stop()
 	}
 	theExec.Store(nil)
-	r := Result{Outcome: x.outcome, Arity: x.arity, Costs: x.costs}
+	if x.selfErr != "" && x.outcome.Kind != "harness-stuck" {
+		x.outcome.Kind = "harness-selfcheck"
+		x.outcome.Detail = x.selfErr
+	}
+	r := Result{Outcome: x.outcome, Arity: x.arity, Costs: x.costs, AltKeys: x.altKeys}
 	r.Choices = x.choices
 	r.Labels = x.labels
 	r.Steps = x.steps
@@ -95,8 +103,8 @@ func Explore(opts Options, body func(), check func(r Result) bool) Stats {
 		cache = map[[2]uint64]int8{}
 	}
 	st.Complete = true
-	var rec func(prefix []int) bool
-	rec = func(prefix []int) bool {
+	var rec func(prefix []int, level int) bool
+	rec = func(prefix []int, level int) bool {
 		if !opts.Deadline.IsZero() && time.Now().After(opts.Deadline) {
 			st.Complete = false
 			return false
@@ -122,8 +130,8 @@ func Explore(opts Options, body func(), check func(r Result) bool) Stats {
 			st.MaxGoroutines = r.MaxG
 		}
 		switch r.Kind {
-		case "harness-stuck":
-			st.HarnessError = r.Detail
+		case "harness-stuck", "harness-selfcheck":
+			st.HarnessError = r.Kind + ": " + r.Detail
 			st.Complete = false
 			return false
 		case "pruned":
@@ -153,18 +161,41 @@ func Explore(opts Options, body func(), check func(r Result) bool) Stats {
 			if opts.PreemptionBound >= 0 && used+r.Costs[i] > opts.PreemptionBound {
 				continue
 			}
+			keys := r.AltKeys[i]
 			for alt := 1; alt < r.Arity[i]; alt++ {
+				if cache != nil && keys != nil && alt < len(keys) && keys[alt] != ([2]uint64{}) {
+					after := used + r.Costs[i]
+					if after > 120 {
+						after = 120
+					}
+					if prev, ok := cache[keys[alt]]; ok && int(prev) <= after {
+						st.Skipped++
+						continue
+					}
+				}
 				np := make([]int, i+1)
 				copy(np, r.Choices[:i])
 				np[i] = alt
-				if !rec(np) {
+				if opts.ShardN > 1 && level+1 == 2 && prefixHash(np)%uint64(opts.ShardN) != uint64(opts.ShardIdx) {
+					st.NotOwned++
+					continue
+				}
+				if !rec(np, level+1) {
 					return false
 				}
 			}
 		}
 		return true
 	}
-	rec(opts.Prefix)
+	rec(opts.Prefix, 0)
 	st.States = len(cache)
 	return st
+}
+
+func prefixHash(p []int) uint64 {
+	h := uint64(0x9E3779B97F4A7C15)
+	for _, c := range p {
+		h = mix(h, uint64(c)+1)
+	}
+	return h
 }
